@@ -396,6 +396,14 @@ func AddressFromStorage(s AddressStorage) (*Address, error) {
 		return nil, fmt.Errorf("failed to parse private key: %w", err)
 	}
 
+	// Check key sizes before building the key pair, which panics on short keys.
+	if len(privKey) != ed25519.PrivateKeySize {
+		return nil, fmt.Errorf("invalid private key size: %d (should be %d)", len(privKey), ed25519.PrivateKeySize)
+	}
+	if len(pubKey) != ed25519.PublicKeySize {
+		return nil, fmt.Errorf("invalid public key size: %d (should be %d)", len(pubKey), ed25519.PublicKeySize)
+	}
+
 	addr := &Address{
 		PublicAddress: PublicAddress{
 			IP:        ip,
@@ -409,12 +417,6 @@ func AddressFromStorage(s AddressStorage) (*Address, error) {
 			ed25519.PrivateKey(privKey),
 			ed25519.PublicKey(pubKey),
 		),
-	}
-	if len(addr.PrivateKey) != ed25519.PrivateKeySize {
-		return nil, fmt.Errorf("invalid private key size: %d (should be %d)", len(addr.PrivateKey), ed25519.PrivateKeySize)
-	}
-	if len(addr.PublicKey) != ed25519.PublicKeySize {
-		return nil, fmt.Errorf("invalid public key size: %d (should be %d)", len(addr.PublicKey), ed25519.PublicKeySize)
 	}
 	if !addr.Hash.IsValid() {
 		return nil, errors.New("invalid address hash algorithm")
@@ -464,26 +466,27 @@ func AddressFromKeyPair(keyPair crop.KeyPair, ip netip.Addr, hash crop.Hash, eas
 		return nil, errors.New("mycoria currently only supports Ed25519 keys")
 	}
 
+	// Check key sizes before building the key pair, which panics on short keys.
+	privKey := ed25519.PrivateKey(ed25519KeyPair.PrivateKeyData())
+	pubKey := ed25519.PublicKey(ed25519KeyPair.PublicKeyData())
+	if len(privKey) != ed25519.PrivateKeySize {
+		return nil, fmt.Errorf("invalid private key size: %d (should be %d)", len(privKey), ed25519.PrivateKeySize)
+	}
+	if len(pubKey) != ed25519.PublicKeySize {
+		return nil, fmt.Errorf("invalid public key size: %d (should be %d)", len(pubKey), ed25519.PublicKeySize)
+	}
+
 	// Create and check address.
 	addr := &Address{
 		PublicAddress: PublicAddress{
 			IP:        ip,
 			Hash:      hash,
 			Type:      keyPair.Type(),
-			PublicKey: ed25519.PublicKey(ed25519KeyPair.PublicKeyData()),
+			PublicKey: pubKey,
 			Easing:    easing,
 		},
-		PrivateKey: ed25519.PrivateKey(ed25519KeyPair.PrivateKeyData()),
-		KeyPair: crop.MakeEd25519KeyPair(
-			ed25519.PrivateKey(ed25519KeyPair.PrivateKeyData()),
-			ed25519.PublicKey(ed25519KeyPair.PublicKeyData()),
-		),
-	}
-	if len(addr.PrivateKey) != ed25519.PrivateKeySize {
-		return nil, fmt.Errorf("invalid private key size: %d (should be %d)", len(addr.PrivateKey), ed25519.PrivateKeySize)
-	}
-	if len(addr.PublicKey) != ed25519.PublicKeySize {
-		return nil, fmt.Errorf("invalid public key size: %d (should be %d)", len(addr.PublicKey), ed25519.PublicKeySize)
+		PrivateKey: privKey,
+		KeyPair:    crop.MakeEd25519KeyPair(privKey, pubKey),
 	}
 	if !addr.Hash.IsValid() {
 		return nil, errors.New("invalid address hash algorithm")
